@@ -133,8 +133,10 @@ func CoordinatesHint(hint *Hint) int {
 	usedY := 0
 	lines := strings.Split(text, term.ClearLineAfter)
 
-	for i, line := range lines {
-		x, y := strutil.LineSpan([]rune(line), i, 0)
+	for _, line := range lines {
+		// Each line is measured on its own (as a first line): the row
+		// of a partly filled last row is added below for all alike.
+		x, y := strutil.LineSpan([]rune(line), 0, 0)
 		if x != 0 {
 			y++
 		}
